@@ -23,6 +23,7 @@ func init() {
 
 func checkC20(c *Ctx) {
 	c20Links(c)
+	c20AllChildren(c)
 	// errcheck-style baseline: a newly discarded error in the package is a dropped protocol/validation step
 	c.checkErrorDiscipline("errors.no-new-dropped-error", "tools/trim", map[string]string{
 	})
@@ -350,4 +351,77 @@ func c20Links(c *Ctx) {
 		})
 	}
 	c.expect("walker.nesting-state-restored-by-inverse", 2)
+}
+
+// c20AllChildren: the dependency walkers of the trimmer must visit *every*
+// element of a node's child slices. Ranging over the slice does; an index loop
+// with a stride other than one (or over a sub-slice) silently skips children —
+// e.g. every other part of an interpolation.
+func c20AllChildren(c *Ctx) {
+	nRange, k := 0, 0
+	for _, f := range c.funcs(c.pkg("tools/trim")) {
+		info := f.Info()
+		isChildSlice := func(e ast.Expr) bool {
+			sel, ok := ast.Unparen(e).(*ast.SelectorExpr)
+			if !ok {
+				return false
+			}
+			fv, ok := info.Uses[sel.Sel].(*types.Var)
+			if !ok || !fv.IsField() || fv.Pkg() == nil || !strings.HasSuffix(fv.Pkg().Path(), adtP) {
+				return false
+			}
+			_, isSlice := fv.Type().Underlying().(*types.Slice)
+			return isSlice
+		}
+		ast.Inspect(f.Body, func(x ast.Node) bool {
+			switch s := x.(type) {
+			case *ast.RangeStmt:
+				if isChildSlice(s.X) {
+					nRange++
+				}
+			case *ast.ForStmt:
+				// which adt child slice does the body index?
+				// the loop variable stepped by this statement
+				var loopVar types.Object
+				switch p := s.Post.(type) {
+				case *ast.IncDecStmt:
+					loopVar = identObj(info, p.X)
+				case *ast.AssignStmt:
+					if len(p.Lhs) == 1 {
+						loopVar = identObj(info, p.Lhs[0])
+					}
+				}
+				if loopVar == nil {
+					return true
+				}
+				var indexed ast.Expr
+				ast.Inspect(s.Body, func(y ast.Node) bool {
+					if ix, ok := y.(*ast.IndexExpr); ok && isChildSlice(ix.X) && identObj(info, ix.Index) == loopVar {
+						indexed = ix.X
+					}
+					return true
+				})
+				if indexed == nil {
+					return true
+				}
+				k++
+				unit := false
+				switch p := s.Post.(type) {
+				case *ast.IncDecStmt:
+					unit = true
+				case *ast.AssignStmt:
+					if len(p.Rhs) == 1 {
+						if v, ok := constInt(info, p.Rhs[0]); ok && v == 1 && (p.Tok == token.ADD_ASSIGN || p.Tok == token.SUB_ASSIGN) {
+							unit = true
+						}
+					}
+				}
+				c.check("walker.visits-every-child-element", fmt.Sprintf("%s#loop%d", f.Name, k), s.Pos(), unit,
+					"an index loop over the child slice "+exprString(indexed)+" must step by one: a stride skips children whose references then keep nothing alive")
+			}
+			return true
+		})
+	}
+	c.check("walker.visits-every-child-element", "tools/trim#range-loops", 0, nRange >= 8,
+		fmt.Sprintf("the walkers range over adt child slices in %d places (expected at least 8: the scan must see them)", nRange))
 }
